@@ -747,6 +747,7 @@ func checkTransportUse(c *fw.Ctx) {
 		for _, call := range fw.CallsTo(fn, false, fw.NameIs("gmsl/fclient.makeHTTPSURL")) {
 			okURL = strings.HasSuffix(fw.Sig(call.Common().Args[1]), ".Destination")
 		}
+		checkResolvedNameIsOriginal(c, rule, fn)
 		c.Expect(okHost, rule, "the Host header is the resolution step's Host", c.P.Pos(fn.Pos()), "", "no store of the resolution result's Host into r.Host was recognised")
 		c.Expect(okURL, rule, "the connection target is the resolution step's destination", c.P.Pos(fn.Pos()), "", "the URL host was not recognised as the resolution result's Destination")
 	}
@@ -770,4 +771,79 @@ func checkPortParse(c *fw.Ctx, rule string) {
 		}
 		c.Check(ok, rule, "server-name ports are unsigned 16-bit decimals (others make the name invalid)", c.P.Pos(fn.Pos()), "", "the port is not parsed with ParseUint(_, 10, 16): names with ports above 65535 or signed ports resolve to connection targets")
 	}
+}
+
+
+// checkResolvedNameIsOriginal: RoundTrip rewrites r.URL (and r.Host) for every target it tries.
+// The name it hands to ResolveServer must therefore be read from the request before any such
+// rewrite: a read of r.URL.Host that can follow the rewrite (a retry that re-reads the request)
+// resolves the last target's address instead of the server name.
+func checkResolvedNameIsOriginal(c *fw.Ctx, rule string, fn *ssa.Function) {
+	construct := "the name that is resolved is read from the request before the request is rewritten for a target"
+	top := func(ins ssa.Instruction, fr *fw.Frame) ssa.Instruction {
+		for fr != nil {
+			ins = fr.Site
+			fr = fr.Parent
+		}
+		// an instruction of a function literal of RoundTrip has no site in RoundTrip: not comparable
+		if ins.Parent() != fn {
+			return nil
+		}
+		return ins
+	}
+	trim := func(s string) string { return strings.TrimLeft(s, "*&") }
+	deep := fw.DeepInstrs(fn, nil)
+	// loads of r.URL.Host that flow into the ResolveServer argument
+	isHostLoad := func(v ssa.Value, fr *fw.Frame) bool {
+		u, ok := v.(*ssa.UnOp)
+		return ok && u.Op == token.MUL && trim(fw.SigIn(fr, v)) == "param:r.URL.Host"
+	}
+	type site struct {
+		ins ssa.Instruction
+		fr  *fw.Frame
+	}
+	var loads, stores []site
+	for _, dc := range fw.AllDeepCalls(fn, nil) {
+		if fw.CalleeName(dc.Call) != "gmsl/fclient.ResolveServer" || len(dc.Call.Common().Args) < 2 {
+			continue
+		}
+		arg := dc.Call.Common().Args[1]
+		for _, di := range deep {
+			v, isV := di.Instr.(ssa.Value)
+			if !isV || !isHostLoad(v, di.Fr) {
+				continue
+			}
+			ld := di
+			if fw.Derives3In(arg, dc.Fr, fw.FlowSpec{IsSourceIn: func(x ssa.Value, _ *fw.Frame) bool { return x == ld.Instr.(ssa.Value) }}) == fw.Yes {
+				loads = append(loads, site{ld.Instr, ld.Fr})
+			}
+		}
+	}
+	for _, di := range deep {
+		st, ok := di.Instr.(*ssa.Store)
+		if !ok {
+			continue
+		}
+		if a := trim(fw.SigIn(di.Fr, st.Addr)); a == "param:r.URL" || a == "param:r.URL.Host" {
+			stores = append(stores, site{st, di.Fr})
+		}
+	}
+	if len(loads) == 0 || len(stores) == 0 {
+		c.Undecided(rule, construct, fmt.Sprintf("%d read(s) of r.URL.Host feeding ResolveServer and %d rewrite(s) of r.URL were recognised", len(loads), len(stores)))
+		return
+	}
+	for _, ld := range loads {
+		for _, st := range stores {
+			a, b := top(st.ins, st.fr), top(ld.ins, ld.fr)
+			if a == nil || b == nil {
+				c.Undecided(rule, construct, "a read or rewrite sits in a function literal")
+				return
+			}
+			if reachesFrom(a, b) {
+				c.Fail(rule, construct, c.P.Pos(fw.InstrPos(ld.ins)), "the server name given to ResolveServer is read from r.URL.Host at a point that can follow the rewrite of r.URL at "+c.P.Pos(fw.InstrPos(st.ins))+": after a failed attempt the retry resolves the last target's address (with its Host and TLS name) instead of the server name")
+				return
+			}
+		}
+	}
+	c.Ok(rule, construct, c.P.Pos(fw.InstrPos(loads[0].ins)), fmt.Sprintf("%d read(s), %d rewrite(s); no rewrite reaches a read", len(loads), len(stores)))
 }
